@@ -166,6 +166,26 @@ func genC14Realloc(p *Plan, r *RNG) {
 	for _, o := range p.Ops {
 		tClose += o.At.GapNS
 	}
+	if r.Chance(1, 3) {
+		// the server has one relay port: the second allocation gets the relayed address of the
+		// first. The application's deferred Close of the old socket comes after that - it closes
+		// nothing, and the new socket goes on receiving
+		p.Flavor += "+same-address+close-again"
+		p.Cfg.Extra["real_gen"] = 100
+		add(Op{Actor: "c1", Kind: "alloc", At: gap(r.PickI64([]int64{50 * ms, sec, 12 * sec}))})
+		add(Op{Actor: "", Kind: "wait", At: gap(1500 * ms)})
+		add(Op{Actor: "c1", Kind: "writeto", At: gap(500 * ms), A: OpArgs{Peer: peer, Len: 31}})
+		add(Op{Actor: "c1", Kind: "close_old", At: gap(int64(r.Range(1, 5)) * sec)})
+		for k := r.Range(2, 5); k > 0; k-- {
+			if r.Chance(1, 3) {
+				add(Op{Actor: "c1", Kind: "writeto", At: gap(int64(r.Range(6, 40)) * sec), A: OpArgs{Peer: peer, Len: r.Range(20, 100)}})
+			} else {
+				add(Op{Actor: "p1", Kind: "peer_send", At: gap(int64(r.Range(6, 40)) * sec), A: OpArgs{Target: "c1", Len: r.Range(20, 100)}})
+			}
+		}
+		p.QuietNS = 10 * sec
+		return
+	}
 	if r.Chance(3, 4) {
 		// the answer to the Refresh(0) does not get through
 		d := r.PickI64([]int64{60 * ms, 150 * ms, 700 * ms})
